@@ -15,7 +15,7 @@
 const char* const H_NAME = "c08_io";
 const char* const H_PROPERTY = "C08";
 
-enum { SC_STREAM = 0, SC_ACCEPT, SC_MODES, SC_CLOSE, SC_INVALID, SC_PEER_CLOSE, SC_NKINDS };
+enum { SC_STREAM = 0, SC_ACCEPT, SC_MODES, SC_CLOSE, SC_INVALID, SC_PEER_CLOSE, SC_DUPLEX, SC_NKINDS };
 enum { SH_READ = 0, SH_READV, SH_RECV, SH_RECVFROM, SH_RECVMSG, SH_WRITE, SH_WRITEV, SH_SEND, SH_SENDTO, SH_SENDMSG, SH_ACCEPT, SH_CONNECT, SH_CLOSE, SH_FCNTL, SH_IOCTL, SH_N };
 static const char* const shn[SH_N] = {"read", "readv", "recv", "recvfrom", "recvmsg", "write", "writev", "send", "sendto", "sendmsg", "accept", "connect", "close", "fcntl", "ioctl"};
 
@@ -560,6 +560,67 @@ static void run_peer_close(sim_cfg_t c) {
   close(pc_w);
 }
 
+/* =============== scenario DUPLEX: readers and writers blocked on the SAME descriptor, both directions =============== */
+static int dx_fd[2], dx_bytes[2], dx_delay[2], dx_shim[2][2][8];
+static unsigned char dx_seen[2][400];
+static int dx_got[2];
+static void* dx_writer(void* p) { /* writes dx_bytes[e] bytes into end e */
+  const int e = (int)(intptr_t)p;
+  unsigned char buf[48];
+  int sent = 0;
+  for (int k = 0; k < dx_delay[e]; k++) RS0(fiber_yield);
+  while (sent < dx_bytes[e]) {
+    int n = dx_bytes[e] - sent > 48 ? 48 : dx_bytes[e] - sent;
+    for (int i = 0; i < n; i++) buf[i] = (unsigned char)((sent + i) * 7 + e);
+    static int wk[2];
+    io_res_t r = io_rw(SH_WRITE + dx_shim[e][1][wk[e]++ & 7], dx_fd[e], buf, (size_t)n, 0, 1);
+    if (r.ret <= 0) sim_violation("C08-write-failed", "duplex: write on end %d failed with %ld errno %d", e, r.ret, r.err);
+    sent += (int)r.ret;
+  }
+  return NULL;
+}
+static void* dx_reader(void* p) { /* reads what the other end's writer sends, from end e */
+  const int e = (int)(intptr_t)p;
+  const int want = dx_bytes[1 - e];
+  unsigned char buf[64];
+  for (int k = 0; k < dx_delay[1 - e]; k++) RS0(fiber_yield);
+  while (dx_got[e] < want) {
+    static int rk[2];
+    io_res_t r = io_rw(SH_READ + dx_shim[e][0][rk[e]++ & 7], dx_fd[e], buf, sizeof buf, 0, 1);
+    if (r.ret <= 0) sim_violation("C08-read-failed", "duplex: read on end %d returned %ld errno %d before all %d bytes arrived", e, r.ret, r.err, want);
+    for (long i = 0; i < r.ret; i++) {
+      unsigned char exp = (unsigned char)((dx_got[e] + i) * 7 + (1 - e));
+      if (buf[i] != exp) sim_violation("C08-data-out-of-order", "duplex: end %d byte %ld is %#x, expected %#x", e, dx_got[e] + i, buf[i], exp);
+    }
+    dx_got[e] += (int)r.ret;
+  }
+  return NULL;
+}
+static void run_duplex(sim_cfg_t c) {
+  for (int e = 0; e < 2; e++) {
+    dx_bytes[e] = wl_int(1, 8 * cap > 300 ? 300 : 8 * cap);
+    dx_delay[e] = wl_int(0, 6);
+    for (int d = 0; d < 2; d++)
+      for (int k = 0; k < 8; k++) dx_shim[e][d][k] = wl_pick(5);
+  }
+  sim_describe("threads=%d duplex socketpair: %d bytes one way, %d the other, capacity=%d, delays %d/%d preempt=1/%d faults=%#x", c.threads, dx_bytes[0], dx_bytes[1], cap, dx_delay[0], dx_delay[1],
+               c.preempt_inv, c.faults);
+  if (socketpair(AF_UNIX, SOCK_STREAM, 0, dx_fd)) sim_violation("C08-setup", "socketpair failed");
+  is_socket[dx_fd[0]] = is_socket[dx_fd[1]] = 1;
+  fiber_t* f[4];
+  int order = wl_pick(4);
+  /* on each end one fiber reads while another one writes: two waiters on one descriptor, different directions */
+  void* (*fn[4])(void*) = {dx_reader, dx_writer, dx_reader, dx_writer};
+  int arg[4] = {0, 0, 1, 1};
+  for (int i = 0; i < 4; i++) {
+    int j = (i + order) % 4;
+    f[i] = fiber_create(STK, fn[j], (void*)(intptr_t)arg[j]);
+  }
+  for (int i = 0; i < 4; i++) fiber_join(f[i], NULL);
+  close(dx_fd[0]);
+  close(dx_fd[1]);
+}
+
 /* =============== scenario INVALID =============== */
 static void run_invalid(sim_cfg_t c) {
   static const char* const cls[] = {"negative", "closed", "never-opened", "eq-max-fd", "above-max-fd", "int-max", "int-min"};
@@ -638,6 +699,7 @@ void h_run(void) {
     case SC_MODES: run_modes(c); break;
     case SC_CLOSE: run_close(c); break;
     case SC_PEER_CLOSE: run_peer_close(c); break;
+    case SC_DUPLEX: run_duplex(c); break;
     default: run_invalid(c);
   }
   h_fiber_end();
